@@ -4,7 +4,7 @@ namespace Cst.Drv
 open DataSlot
 
 def dataFacts : DataSlot.Facts :=
-  ⟨SourceFacts.dataSetW, SourceFacts.dataTrySetW, SourceFacts.dataGetW, SourceFacts.dataClearW⟩
+  ⟨DriverFacts.dataSetW, DriverFacts.dataTrySetW, DriverFacts.dataGetW, DriverFacts.dataClearW⟩
 
 def showRes : Res → String
   | .arc v => s!"arc {v}"
